@@ -250,6 +250,8 @@ static int recv_events(m_ctx_t *c, int timeout) {
                 msg = &evt->evt;
                 fetch_ms(&msg->ts, NULL);
                 M_INFO("'%s' received %u type evt.\n", mod->name, msg->type);
+                /* Only errors of this event's processing matter, not what a user callback left behind */
+                errno = 0;
                 p = p->process(p, c, i, evt);
             }
             err = errno; // Store any errno that happened while consuming events
